@@ -21,7 +21,11 @@ fn run<T: Evaluate>(pw: &Piecewise<T>, u: &Unit, idxs: &[usize], kind: &str, cx:
         p2.set(p2.get() + 1);
         x
     });
-    let detail = |extra: serde_json::Value| json!({"ends": fjs(&u.ends), "piece_type": kind, "arguments": fjs(&xs), "observation": extra});
+    let detail = |extra: serde_json::Value| {
+        let a: Vec<String> = xs.iter().map(|x| lit(*x)).collect();
+        let body = format!("    let xs = vec![{}];\n    // expected: each argument evaluated with the piece selected for the running maximum of the arguments so far\n    let mut m = f64::NEG_INFINITY;\n    let want: Vec<f64> = xs.iter().map(|&x| {{ if x > m {{ m = x; }} ends.iter().position(|&e| e > m).unwrap_or(ends.len() - 1) as f64 }}).collect();\n    let got: Vec<f64> = pw.evaluate_v(xs.clone()).collect();\n    assert_eq!(got, want);", a.join(", "));
+        json!({"ends": fjs(&u.ends), "piece_type": kind, "arguments": fjs(&xs), "observation": extra, "rust_repro": repro(&u.ends, &body)})
+    };
     let mut it = match guard(|| pw.evaluate_v(input)) {
         Ok(it) => it,
         Err(p) => return Err(Fail::new(format!("evaluate_v panicked: {p}"), detail(json!(p)))),
@@ -83,6 +87,14 @@ pub fn check(thorough: bool, _seed: u64) -> Check {
     for e in shapes(&nasty_values(), 3) {
         us.push(Unit { alpha: order_alphabet(&e), ends: e, depth: 3 });
     }
+    // long functions (cursor jumps over many segments): 1..n strictly increasing, and every list of length 6 over {1..6}
+    for n in 6..=(if thorough { 12 } else { 9 }) {
+        let e: Vec<f64> = (1..=n).map(|i| i as f64).collect();
+        us.push(Unit { alpha: order_alphabet(&e), ends: e, depth: if n <= 8 { 3 } else { 2 } });
+    }
+    for e in shapes(&[1.0, 2.0, 3.0, 4.0, 5.0, 6.0], 6).into_iter().filter(|e| e.len() == 6) {
+        us.push(Unit { alpha: order_alphabet(&e), ends: e, depth: if thorough { 3 } else { 2 } });
+    }
     let n = us.len();
     let us = Arc::new(us);
     let body: Body = Box::new(move |unit, cx| {
@@ -142,7 +154,7 @@ pub fn check(thorough: bool, _seed: u64) -> Check {
                 ("empty_sequence", true),
             ],
             split: 0,
-            bounds: json!({"shapes": "all non-decreasing end lists of length 1..5 over {1..5}, and of length 1..3 over the nasty value set",
+            bounds: json!({"shapes": "all non-decreasing end lists of length 1..5 over {1..5}, of length 1..3 over the nasty value set, of length 6 over {1..6} (depth 2; 3 thorough), and the lists 1..n for n=6..9 (12 thorough; depth 3 up to n=8, then 2)",
                 "sequences": if thorough {"every sequence of length 0..5 (0..4 for 5 pieces) over A(ends)"} else {"every sequence of length 0..4 (0..3 for 5 pieces) over A(ends)"},
                 "piece_types": "Probe, Poly3"}),
         }],
